@@ -16,7 +16,6 @@ import (
 	"time"
 )
 
-
 // argCandidates: a small set of values of type t; self is the receiver (pointer) the method is called on.
 func argCandidates(t reflect.Type, self reflect.Value, depth int) []reflect.Value {
 	var out []reflect.Value
